@@ -232,6 +232,8 @@ class Translator:
             if av in (C.AT_BEGINNING, C.AT_BEGINNING_STRING):
                 if at_start and not (self.multiline and av == C.AT_BEGINNING):
                     return k
+                if getattr(self, "caret_empty", False) and not self.multiline:
+                    return re_empty()      # this occurrence can only match at subject position 0, which this translation excludes
                 raise Unsupported("'^' not at the start of the pattern")
             if av == C.AT_END:
                 if self.multiline:
@@ -273,7 +275,12 @@ def lang(pattern, flags: int | None = None, mode: str = "match"):
         if starts_anchored:
             body = t.seq(items, k, True)
         else:
-            body = z3.Concat(re_full(), t.seq(items, k, False))
+            # a match starting at position 0 (where '^' holds) or after a non-empty prefix (where '^' cannot hold)
+            at0 = t.seq(items, k, True)
+            t2 = Translator(fl)
+            t2.caret_empty = True
+            later = z3.Concat(z3.Plus(re_allchar()), t2.seq(items, k, False))
+            body = z3.Union(at0, later)
     return body
 
 
